@@ -366,11 +366,9 @@ func (this *Dataset) Search(ctx context.Context, query math.Vector, k uint) (ind
 		go this.searchPartitionsOnNode(ctx, nodeId, partitionIds, query, k, wg, resultCh, errorCh)
 	}
 
-	go func() {
-		wg.Wait()
-		close(resultCh)
-		close(errorCh)
-	}()
+	// Every worker sends exactly one message to one of the (buffered) channels.
+	// The channels must not be closed: a closed error channel is always ready and
+	// would end the collection below with a nil error and a partial result.
 
 	result := make(index.SearchResult, 0, int(k)*len(nodePartitions))
 	for i := 0; i < len(nodePartitions); i++ {
@@ -410,11 +408,7 @@ func (this *Dataset) SearchPartitions(ctx context.Context, partitionIds []uuid.U
 		go this.searchPartition(ctx, partition, query, k, wg, resultCh, errorCh)
 	}
 
-	go func() {
-		wg.Wait()
-		close(resultCh)
-		close(errorCh)
-	}()
+	// See Search: the channels must not be closed while results are collected.
 
 	result := make(index.SearchResult, 0, int(k)*len(partitions))
 	for i := 0; i < len(partitions); i++ {
@@ -512,6 +506,7 @@ func (this *Dataset) searchPartitionsOnNode(ctx context.Context, nodeId uint64, 
 		id, err := uuid.FromBytes(item.GetId())
 		if err != nil {
 			errorCh <- err
+			return
 		}
 
 		result = append(result, index.SearchResultItem{
